@@ -104,12 +104,13 @@ func findCommodityReferences(symbol string, resolved *include.ResolvedJournal, c
 		for i := range journal.Transactions {
 			tx := &journal.Transactions[i]
 			for j := range tx.Postings {
-				p := &tx.Postings[j]
-				if p.Amount != nil && p.Amount.Commodity.Symbol == symbol {
-					locations = append(locations, protocol.Location{
-						URI:   pathToURI(filePath),
-						Range: *astRangeToProtocol(p.Amount.Commodity.Range),
-					})
+				for _, c := range postingCommodities(&tx.Postings[j]) {
+					if c.Symbol == symbol {
+						locations = append(locations, protocol.Location{
+							URI:   pathToURI(filePath),
+							Range: *astRangeToProtocol(c.Range),
+						})
+					}
 				}
 			}
 		}
